@@ -89,7 +89,7 @@ pub fn sentences(l: &Level, top: bool) -> Vec<Vec<Tok>> {
             for it in items {
                 let opts = match it.kind {
                     PosKind::Req => vec![1],
-                    PosKind::Opt => vec![0, 1],
+                    PosKind::Opt | PosKind::Fallback => vec![0, 1],
                     PosKind::Many => vec![0, 2],
                     PosKind::Some => vec![1, 2],
                 };
